@@ -18,6 +18,7 @@
  Rm memo          : every memoisation construct in the functions behind this property is keyed by everything it reads.
  Rp presence      : optional numeric fields are tested with `is None` / membership, never by truthiness (0 is a value).
  Rs sorted        : every numpy.interp abscissa is ascending by construction or by a recorded precondition.
+ R7 first reason  : a blocking reason already set is never overwritten by a later check (shared with C19-R9).
 """
 import ast
 
@@ -453,6 +454,14 @@ def rs_sorted(ctx):
     ctx.need('Rs.sorted-abscissa', 1)
 
 
+def r7_first_reason(ctx):
+    """R7: the verdict of a request is its first blocking reason: later checks (reverse direction) do not overwrite it
+    (shared with C19-R9)"""
+    from .common import first_reason_rule
+    first_reason_rule(ctx, 'R7.first-reason', 'a request blocked for lack of a feasible mode would be reported as failing another check')
+    ctx.need('R7.first-reason', 2)
+
+
 from ..memo import rule_for as _memo_rule
 
 RULES_MEMO = ('Rm.memo', _memo_rule('C13', 'a verdict would be taken on the figures of another propagation'))
@@ -463,4 +472,4 @@ from ..presence import rule_for as _presence_rule
 RULES_PRESENCE = ('Rp.presence', _presence_rule('C13', 'a legal zero would be read as missing'))
 
 RULES = [('R6.tables', r6_tables), ('R1.verdict', r1_verdicts), ('R2.update-snr', r2_update_snr), ('R3.once', r3_once),
-         ('R4.penalties', r4_penalties), ('R5.order', r5_order), RULES_MEMO, RULES_PRESENCE, ('Rs.sorted-abscissa', rs_sorted)]
+         ('R4.penalties', r4_penalties), ('R5.order', r5_order), RULES_MEMO, RULES_PRESENCE, ('Rs.sorted-abscissa', rs_sorted), ('R7.first-reason', r7_first_reason)]
